@@ -292,6 +292,20 @@ static void run_cring(const std::vector<std::string> &w, out &o)
         for (size_t i = 0; i < got.size() && i < c.q.size(); i++)
             if (got[i] != (int64_t)((r->tail + i) % size)) o.fail("ring_for_each order");
     }
+    else if (op == "eachv")
+    { // the macro with a body that reads the slot: exactly the stored bytes, oldest first, once
+        bytes got;
+        size_t guard = 0;
+        ring_for_each(n, r)
+        {
+            if (n >= c.blen() || ++guard > size) { o.fail("ring_for_each leaves the ring"); break; }
+            got.push_back(c.p()[n]);
+        }
+        ret = hex(got);
+        if (got.size() != c.q.size()) o.fail("ring_for_each visits " + S(got.size()) + " elements, " + S(c.q.size()) + " stored");
+        else if (!std::equal(got.begin(), got.end(), c.q.begin())) o.fail("ring_for_each does not visit the stored bytes oldest first");
+        if (got.size() > 1) o.tag("foreach");
+    }
     else if (op == "dump")
         ret = hex(c.p(), c.blen());
     else
@@ -338,6 +352,13 @@ template <class T> struct TR
         if (x.r.head < x.r.tail) o.tag("wrapped");
         if (size & (size - 1)) o.tag("nonpow2");
         if (x.r.head == 0) o.tag("head0");
+        // stored elements = reference queue, in order
+        if (x.buffer.size() >= size && x.r.tail < size && x.avail() == q.size())
+        {
+            uint64_t i = x.r.tail;
+            for (size_t k = 0; k < q.size(); k++, i = (i + 1) % size)
+                if (x.buffer[i] != q[k]) { o.fail("stored element " + S(k) + " differs from reference"); break; }
+        }
     }
     void run(const std::vector<std::string> &w, out &o)
     {
@@ -431,6 +452,29 @@ template <class T> struct TR
             x.set_last_index(i);
             if ((int64_t)x.r.head != emod((int64_t)i + 1, size)) o.fail("set_last_index: head " + S(x.r.head));
             resync();
+        }
+        else if (op == "copy")
+        { // implicit copy constructor; the original is destroyed, the copy carries on
+            std::unique_ptr<igris::ring<T>> c(new igris::ring<T>(x));
+            if (c->buffer.data() == x.buffer.data()) o.fail("copy shares the storage");
+            t = std::move(c);
+            o.tag("copy");
+        }
+        else if (op == "assign")
+        { // implicit copy assignment into a ring of another size
+            std::unique_ptr<igris::ring<T>> c(new igris::ring<T>(3));
+            c->push((T)9);
+            *c = x;
+            if (c->buffer.data() == x.buffer.data()) o.fail("assignment shares the storage");
+            t = std::move(c);
+            o.tag("copy");
+        }
+        else if (op == "move")
+        { // implicit move constructor; what is left in the moved-from object is printed
+            std::unique_ptr<igris::ring<T>> c(new igris::ring<T>(std::move(x)));
+            ret = S(x.buffer.size()) + " " + S(x.r.size);
+            t = std::move(c);
+            o.tag("move");
         }
         else if (op == "write" || op == "read")
         {
@@ -534,6 +578,8 @@ static void run_rc(const std::vector<std::string> &w, out &o)
     {
         ring_counter_increment(&rcs, (int)a);
         if (before + a >= 0 && rcs.counter != emod(before + a, size)) o.fail("increment: counter " + S(rcs.counter));
+        if (before + a < 0) o.tag("inc-neg");
+        if (before + a >= 2147483000) o.tag("int-edge");
     }
     else if (op == "set")
     {
@@ -544,8 +590,11 @@ static void run_rc(const std::vector<std::string> &w, out &o)
     {
         int v = ring_counter_prev(&rcs, (int)a);
         ret = S(v);
-        if (a >= 0 && v != emod(before - a, size)) o.fail("prev(" + S(a) + ") = " + S(v));
+        // contract of ring_counter_prev: counter - i < size (every i >= 0 for a counter in range, and
+        // the negative i > counter - size); beyond it the result is >= size and only compared with the model
+        if (before - a < size && v != emod(before - a, size)) o.fail("prev(" + S(a) + ") = " + S(v));
         if (a > before) o.tag("prev-wrap");
+        if (a < 0) o.tag(before - a < size ? "prev-neg" : "prev-beyond");
     }
     else if (op == "last")
     {
@@ -577,6 +626,7 @@ struct Ledger
     std::set<const void *> live;
     std::set<void *> blocks;
     long allocs = 0;
+    long over_live = 0, dead_dtor = 0, dead_read = 0;
     std::vector<std::string> errs;
     void err(const std::string &e) { if (errs.size() < 4) errs.push_back(e); }
 };
@@ -586,20 +636,21 @@ struct Tracked
     int v;
     void born()
     {
-        if (!LG.live.insert(this).second) LG.err("object constructed over a live object (the old one is never destroyed)");
+        if (!LG.live.insert(this).second) { LG.over_live++; LG.err("object constructed over a live object (the old one is never destroyed)"); }
     }
     Tracked() : v(0) { born(); }
     Tracked(int x) : v(x) { born(); }
-    Tracked(const Tracked &o) : v(o.v) { born(); }
+    Tracked(const Tracked &o) : v(o.v) { if (!LG.live.count(&o)) LG.dead_read++; born(); }
     Tracked &operator=(const Tracked &o)
     {
         if (!LG.live.count(this)) LG.err("assignment to an object that is not alive");
+        if (!LG.live.count(&o)) LG.dead_read++;
         v = o.v;
         return *this;
     }
     ~Tracked()
     {
-        if (!LG.live.erase(this)) LG.err("destructor run on an object that is not alive (destroyed twice or never constructed)");
+        if (!LG.live.erase(this)) { LG.dead_dtor++; LG.err("destructor run on an object that is not alive (destroyed twice or never constructed)"); }
     }
 };
 template <class T> struct CountingAlloc
@@ -652,6 +703,62 @@ static void run_lifeprobe(const std::vector<std::string> &w, out &o)
     o.result = "-";
 }
 
+
+
+// `lifecount <n> <script>`: igris::ring<Tracked>(n) runs the script (u push, o pop,
+// c clear, z resize(n), y copy-construct + carry on with the copy, m move-construct
+// + carry on with the new object) and is destroyed.  Result = the ledger's counts
+// "constructed-over-live  destructor-on-dead  read-of-dead" (compared with the
+// slot-lifetime model of the Lean side); the oracle judges what C03 states: the
+// values come out FIFO for this non-trivial T too.
+static void run_lifecount(const std::vector<std::string> &w, out &o)
+{
+    LG = Ledger();
+    size_t n = strtoul(w[1].c_str(), 0, 10);
+    const std::string sc = w[2] == "-" ? "" : w[2];
+    std::deque<int> q;
+    int k = 0;
+    {
+        std::unique_ptr<TRng> r(new TRng((int)n));
+        for (char ch : sc)
+        {
+            if (ch == 'u')
+            {
+                if (q.size() == n) { o.result = "bad-op"; return; }
+                r->push(Tracked(k)); q.push_back(k); k++;
+            }
+            else if (ch == 'o')
+            {
+                if (q.empty()) { o.result = "bad-op"; return; }
+                if (r->tail().v != q.front()) o.fail("tail() is " + S(r->tail().v) + ", the oldest pushed is " + S(q.front()));
+                r->pop(); q.pop_front();
+            }
+            else if (ch == 'c') { r->clear(); q.clear(); }
+            else if (ch == 'z') { r->resize(n); q.clear(); }
+            else if (ch == 'y') { std::unique_ptr<TRng> c(new TRng(*r)); r = std::move(c); }
+            else if (ch == 'm') { std::unique_ptr<TRng> c(new TRng(std::move(*r))); r = std::move(c); }
+            else { o.result = "bad-op"; return; }
+            if (r->avail() != q.size()) o.fail("avail " + S(r->avail()) + " != reference " + S(q.size()));
+            if (!q.empty() && r->last().v != q.back()) o.fail("last() is not the newest");
+        }
+        // drain: everything stored comes out in order
+        while (!q.empty())
+        {
+            if (r->empty()) { o.fail("ring empty with " + S(q.size()) + " elements outstanding"); break; }
+            if (r->tail().v != q.front()) { o.fail("drain: tail() is not the oldest"); break; }
+            q.pop_front();
+            r->move_tail_one(); // releases the slot without touching the object
+        }
+    }
+    if (LG.allocs != 0) o.fail(S(LG.allocs) + " allocations never released");
+    o.result = S(LG.over_live) + " " + S(LG.dead_dtor) + " " + S(LG.dead_read);
+    if (LG.over_live) o.tag("over-live");
+    if (LG.dead_dtor) o.tag("dead-dtor");
+    if (LG.dead_read) o.tag("dead-read");
+    for (void *p : LG.blocks) free(p);
+    LG = Ledger();
+    o.tag("lifetime");
+}
 
 // ================================================================== bytering
 // igris/datastruct/bytering.h: the pointer version of the byte ring
@@ -755,6 +862,7 @@ static void run_op(const std::vector<std::string> &w, const std::string &, out &
 {
     if (w.empty()) { o.result = "bad-op"; return; }
     if (w[0] == "lifeprobe" && w.size() >= 2) { run_lifeprobe(w, o); return; }
+    if (w[0] == "lifecount" && w.size() == 3) { run_lifecount(w, o); return; }
     if (w[0] == "reset")
     {
         if (w.size() == 4 && w[1] == "ring")
@@ -1228,6 +1336,173 @@ static void gen_bring(rng &r, bool th)
         }
 }
 
+
+// ---- extension: ring_for_each with a body, size 1, copy/move of the typed ring,
+// the slot-lifetime counters, ring_counter at the edges of int
+static void gen_ext(rng &r, bool th)
+{
+    // (a) ring_for_each reading the slots: every (size, head, tail) state
+    unsigned salt = 0;
+    for (unsigned size = 2; size <= (th ? 12u : 9u); size++)
+        for (unsigned h = 0; h < size; h++)
+            for (unsigned t = 0; t < size; t++)
+            {
+                reach(size, h, t, salt++);
+                P("eachv");
+                P("each");
+                P("read " + S(size));
+                P("eachv");
+            }
+    // (b) a ring of size 1 (capacity 0: always empty and full)
+    P("reset ring 1 1");
+    for (const char *op : {"putc ff", "getc", "write 0102", "read 3", "each", "eachv", "mh 0", "mt 0", "mh 1", "mt 1", "mh1", "mt1",
+                           "mh 5", "clean", "fix 0", "fix -1", "fix 7", "putc 00", "getc", "dump"})
+        P(op);
+    // (c) random histories with for_each after every few operations; bulk writes that exactly fill
+    for (int rep = 0; rep < (th ? 6 : 1); rep++)
+        for (unsigned size : {2u, 3u, 4u, 5u, 7u, 8u, 9u, 16u, 17u, 33u, 64u, 100u})
+        {
+            P("reset ring " + S(size) + " " + S(size));
+            unsigned cnt = 0, cap = size - 1;
+            for (int k = 0; k < (th ? 300 : 120); k++)
+            {
+                unsigned y = (unsigned)r.below(100);
+                unsigned room = cap - cnt;
+                if (y < 20) { P("putc " + rhex(r, 1)); if (cnt < cap) cnt++; }
+                else if (y < 30) { P("write " + rhex(r, room)); cnt = cap; }                  // exactly fills
+                else if (y < 40) { unsigned n = (unsigned)r.range(0, room + 2); P("write " + rhex(r, n)); cnt += std::min(n, room); }
+                else if (y < 55) { P("getc"); if (cnt) cnt--; }
+                else if (y < 65) { P("read " + S(cnt)); cnt = 0; }                            // exactly drains
+                else if (y < 75) { unsigned n = (unsigned)r.range(0, cnt + 2); P("read " + S(n)); cnt -= std::min(n, cnt); }
+                else if (y < 80 && room) { unsigned n = (unsigned)r.range(1, room); P("prod " + rhex(r, n)); cnt += n; }
+                else if (y < 85 && cnt) { unsigned n = (unsigned)r.range(1, cnt); P("cons " + S(n)); cnt -= n; }
+                else P("eachv");
+            }
+            P("eachv");
+            P("read " + S(size));
+        }
+    // (d) igris::ring<int>: copy construction / assignment / move at every (head, fill)
+    for (int n = 1; n <= (th ? 8 : 5); n++)
+    {
+        int size = n + 1;
+        for (int h = 0; h < size; h++)
+            for (int fill = 0; fill <= n; fill++)
+                for (const char *op : {"copy", "assign", "move"})
+                {
+                    int t = ((h - fill) % size + size) % size;
+                    P("reset typed " + S(n));
+                    for (int i = 0; i < t; i++) { P("push " + S(-i - 1)); P("pop"); }
+                    for (int i = 0; i < fill; i++) P("push " + S(100 + i));
+                    P(op);
+                    if (fill) { P("last"); P("tail"); P("getlast 0 " + S(fill) + " 0"); }
+                    if (fill < n) P("push 777");
+                    for (int i = 0; i < fill + (fill < n ? 1 : 0); i++) { P("tail"); P("pop"); }
+                    // resize drops the content: the ring is empty with the new capacity
+                    P("push 5");
+                    P("resize " + S(n + 2));
+                    P("push 6");
+                    P("tail");
+                    P("last");
+                }
+    }
+    for (int rep = 0; rep < (th ? 6 : 1); rep++)
+        for (int n : {1, 2, 3, 5, 8, 16, 17, 100})
+        {
+            P("reset typed " + S(n));
+            int cnt = 0, v = 1;
+            for (int k = 0; k < (th ? 300 : 120); k++)
+            {
+                unsigned y = (unsigned)r.below(100);
+                if (y < 40) { if (cnt < n) { P("push " + S(v++)); cnt++; } }
+                else if (y < 65) { if (cnt) { P("pop"); cnt--; } }
+                else if (y < 72) P("copy");
+                else if (y < 79) P("assign");
+                else if (y < 86) P("move");
+                else if (y < 92) { if (cnt) P("last"); }
+                else if (y < 98) { if (cnt) P("tail"); }
+                else { P("resize " + S(n)); cnt = 0; }
+            }
+            P("clear");
+        }
+    // (e) slot lifetime of ring<Tracked>: every contract-respecting push/pop script up to a
+    // length on rings of 1..3 elements, then random scripts with clear/resize/copy/move
+    for (int n = 1; n <= 3; n++)
+    {
+        int maxlen = th ? 9 : 7;
+        std::vector<std::pair<std::string, int>> cur = {{"", 0}};
+        P("lifecount " + S(n) + " -");
+        for (int len = 1; len <= maxlen; len++)
+        {
+            std::vector<std::pair<std::string, int>> nxt;
+            for (auto &p : cur)
+            {
+                if (p.second < n) nxt.push_back({p.first + "u", p.second + 1});
+                if (p.second > 0) nxt.push_back({p.first + "o", p.second - 1});
+            }
+            for (auto &p : nxt) P("lifecount " + S(n) + " " + p.first);
+            cur = nxt;
+        }
+    }
+    for (int n : {1, 2, 3, 4, 5, 8, 16})
+        for (int rep = 0; rep < (th ? 40 : 8); rep++)
+        {
+            std::string sc;
+            int cnt = 0, len = (int)r.range(1, 4 * n + 10);
+            for (int k = 0; k < len; k++)
+            {
+                unsigned y = (unsigned)r.below(100);
+                if (y < 45) { if (cnt < n) { sc += 'u'; cnt++; } }
+                else if (y < 80) { if (cnt) { sc += 'o'; cnt--; } }
+                else if (y < 85) { sc += 'c'; cnt = 0; }
+                else if (y < 89) { sc += 'z'; cnt = 0; }
+                else if (y < 95) sc += 'y';
+                else sc += 'm';
+            }
+            P("lifecount " + S(n) + " " + (sc.empty() ? "-" : sc));
+        }
+    // (f) ring_counter: negative i, results below 0, the edges of int (all inside the
+    // precondition "counter +- argument fits an int")
+    for (int n : {1, 2, 3, 7, 8})
+    {
+        P("reset rc " + S(n));
+        for (int c = 0; c < n; c++)
+        {
+            P("set " + S(c));
+            for (int i = -2 * n - 1; i < 0; i++) { P("prev " + S(i)); P("last " + S(i)); }
+        }
+        P("set 0");
+        P("inc -1");
+        P("get");
+        P("prev 0");
+        P("last 0");
+        P("inc 1");
+        P("inc -" + S(n + 2));
+        P("last 1");
+        P("set 0");
+    }
+    for (long long n : {2147483647ll, 2147483646ll, 1073741824ll, 65536ll})
+    {
+        P("reset rc " + S(n));
+        P("set " + S(n - 1));
+        P("prev 0");
+        P("prev " + S(n - 1));
+        P("last -1");
+        P("inc " + S(2147483647ll - (n - 1))); // counter + arg == INT_MAX exactly
+        P("get");
+        P("set 2147483647");
+        P("get");
+        P("set 5");
+        P("prev 2147483647");
+        P("last 2147483647");
+        P("last -2147483642"); // counter - no == INT_MAX
+        P("fixpos -2147483648");
+        P("fixpos 2147483647");
+        P("inc -2147483648");
+        P("get");
+        P("set 0");
+    }
+}
+
 // element lifetime in unbounded_array / ring / cyclic_buffer (oracle-only)
 static void gen_lifetime()
 {
@@ -1268,6 +1543,7 @@ static void gen(rng &r, const std::string &tier)
     gen_typed(r, th);
     gen_cyc(r, th);
     gen_bring(r, th);
+    gen_ext(r, th);
 }
 
 int main(int argc, char **argv) { return main_(argc, argv, gen, run_op); }
